@@ -281,7 +281,7 @@ def run(tier):
     budget = {"preempt": 1, "interrupt": 1, "random": 1} if tier == "quick" else {"preempt": 2, "interrupt": 1, "random": 1}
     ex = [("interrupt at every point with a call in flight", FACTORY, cfgs(tier), budget),
           ("interrupt + a call failing after it + children becoming ready, random queue (<= 2 non-default draws)", FACTORY,
-           fail_release_cfgs(tier), {"preempt": 0, "interrupt": 1, "random": 2, "yield": 2} if tier == "quick" else {"preempt": 1, "interrupt": 1, "random": 2, "yield": 1})]
+           fail_release_cfgs(tier), {"preempt": 0, "interrupt": 1, "random": 2, "yield": 2} if tier == "quick" else {"preempt": 1, "interrupt": 1, "random": 2, "yield": 0})]
     sv, scov = signal_conformance(tier)
     res = e1prop.run(PROP, ex, extra_cov=scov, extra_viol=sv)
     return res
